@@ -18,6 +18,12 @@ Tie        : correspondence of every hand-written model piece with the code:
                conv     pyarrow conversion of admitted values vs canon  (hypothesis conv_sound of C11_exact_partial)
                machine  the e2e histories                   vs the append machine `run` (outcomes, snapshots,
                         footers, bound ids and values, store listing, scan results)
+Findings   : (findings/C11-unchanged-tree.log, findings/C11-prebuilt-format-unchanged-tree.log, findings/C11-replays/)
+               F-C11   unordered, id-less schema signature: reordered -> scans raise; renumbered -> rows mis-filtered   (fixed)
+               F-C11b  pyarrow silently alters values validate_records_strict let through (1.5 -> 1, int -> timestamp,
+                       bytes <-> str, datetime -> date, 1e40 -> float32 inf, ...)                                     (fixed)
+               F-C11c  append_files accepts avro / orc files the read path cannot read -> scans raise                 (fixed)
+               open    tables created without a schema enforce nothing (probe_legacy; outside the proved scope)
 """
 from __future__ import annotations
 
@@ -599,6 +605,35 @@ def oracle_prebuilt(ctx, only: Optional[str] = None) -> None:
     ctx.stats["prebuilt_cases"] = n
 
 
+def probe_legacy(ctx) -> None:
+    """OUT OF THE PROVED SCOPE, recorded in the evidence only: a table created WITHOUT a schema enforces
+    nothing on explicit schema arguments (the code says so: "legacy table: nothing to enforce"), so two
+    appends with different schemas are both accepted and the next full scan raises; through a REUSED handle
+    and the same schema_id the Arrow-schema cache answers with the first schema and the second batch's
+    fields are silently dropped.  No small safe repair exists (it needs either schema adoption at the
+    first append or a check against existing data files); reported as an open finding."""
+    from datashard import create_table, load_table
+    from datashard.data_structures import Schema
+    f1 = [{"id": 1, "name": "a", "type": "long", "required": False}]
+    f2 = [{"id": 1, "name": "b", "type": "string", "required": False}]
+    out = {}
+    for mode in ("fresh_handle", "reused_handle"):
+        root = os.path.join(ctx.scratch, "legacy")
+        shutil.rmtree(root, ignore_errors=True)
+        t = create_table(root)
+        try:
+            t.append_records([{"a": 1}], schema=Schema(schema_id=1, fields=copy.deepcopy(f1)))
+            h = t if mode == "reused_handle" else load_table(root)
+            h.append_records([{"b": "x"}], schema=Schema(schema_id=1, fields=copy.deepcopy(f2)))
+            try:
+                out[mode] = "both accepted; scan returns " + repr(load_table(root).scan())
+            except Exception as e:                   # noqa: BLE001
+                out[mode] = f"both accepted; scan raises {type(e).__name__}"
+        except Exception as e:                       # noqa: BLE001
+            out[mode] = f"second append rejected ({type(e).__name__})"
+    ctx.stats["open_finding_legacy_table_without_schema"] = out
+
+
 # ---------------------------------------------------------------------------------- correspondence (model vs code)
 NAME_NUM = {"a": 0, "b": 1, "c": 2, "z": 3, "q": 4, "zz": 5}
 REQ_P = REQ + ["DS.Proofs.SchemaProofs"]
@@ -937,6 +972,7 @@ def run(ctx) -> None:
     oracle_cells(ctx)
     oracle_prebuilt(ctx)
     runs = oracle_e2e(ctx)
+    probe_legacy(ctx)
     # correspondence needs the model to build
     try:
         corr_accept_arrow(ctx)
